@@ -322,6 +322,8 @@ def c05(res):
             for t in (1, 2, 4):
                 if g["poison"]:
                     out.append(gg.base_cfg(s, t, light=True, market_log=True, watchdog_ms=60000))
+                    # ... also when the caller waits with join_and_report instead of join
+                    out.append(gg.base_cfg(s, t, light=True, watchdog_ms=60000, join_and_report=True))
                 else:
                     out.append(gg.base_cfg(s, t, light=True, market_log=True, watchdog_ms=60000, finish=dict(variant="Any", names=[])))
                     out.append(gg.base_cfg(s, t, light=True, market_log=True, watchdog_ms=60000, target_states=2000))
@@ -339,7 +341,8 @@ def c05(res):
               props=big_props(rng))
 
     def tcfgs(i, g):
-        return [gg.base_cfg(s_, t, no_visitor=True, watchdog_ms=60000) for s_ in ("bfs", "dfs") for t in (2, 3) for _ in range(1 if q else 4)]
+        return [gg.base_cfg(s_, t, no_visitor=True, watchdog_ms=60000) for s_ in ("bfs", "dfs") for t in (2, 3) for _ in range(1 if q else 4)] + \
+               [gg.base_cfg(s_, 2, no_visitor=True, watchdog_ms=60000, join_and_report=True) for s_ in ("bfs", "dfs")]
     runs3, _ = checker_runs(res, "C05", [tc], tcfgs, ["joined", "stop_after_panic"], wd, "twochains")
     for r in runs3:
         if r["done"]["joined"] and not r["done"]["join_panicked"]:
